@@ -30,6 +30,7 @@ import (
 	"syscall"
 
 	"verif/envio"
+	"verif/gen"
 	"verif/mc"
 	"verif/obs"
 
@@ -454,6 +455,71 @@ func c05AfterDuplicates(x *mc.Exec) {
 	x.Outcome = fmt.Sprintf("dups%d", dups)
 }
 
+// ---- the same malformed input twice ----
+//
+// Error paths build their results too (error values, partial records): the same single-field malformation of a
+// generated seed is decoded by two threads at once.  In the race build a shared, mutable error value or scratch
+// area on an error path is a write/write race whatever the schedule; in the plain build each result must equal
+// the sequential one.
+
+func c05MalformedPairs(x *mc.Exec) {
+	runtime.GOMAXPROCS(1)
+	var withFields []seed
+	for _, s := range genSeeds() {
+		if len(s.doc.Fields) > 0 && len(s.doc.B) < 6000 {
+			withFields = append(withFields, s)
+		}
+	}
+	s := withFields[x.All("seed", len(withFields))]
+	d := &gen.Doc{B: append([]byte{}, s.doc.B...), Fields: s.doc.Fields}
+	what := d.Malform(x, 1)
+	x.Trivial = len(what) == 0
+	call := func() string { return exifOutcome(imagemeta.Decode(bytes.NewReader(d.B))) }
+	if s.kind == "png" {
+		call = func() string { return exifOutcome(imagemeta.DecodePng(bytes.NewReader(d.B))) }
+	}
+	pristine()
+	defaultLogger()
+	var golden string
+	if pi := mc.Guard(func() { golden = call() }); pi != nil {
+		x.Outcome = "panic"
+		return // C01's business
+	}
+	pristine()
+	defaultLogger()
+	results := make([]string, 2)
+	bodies := []func(){func() { results[0] = call() }, func() { results[1] = call() }}
+	decide := func(kind string, n int, curEnabled bool, detail string) int {
+		switch kind {
+		case "sched":
+			if curEnabled {
+				return x.Choose("sched", n)
+			}
+			return x.All("sched", n)
+		default:
+			// every Get is answered by New (sync.Pool may always do so): no pooled object travels from one call to the
+			// other, so nothing orders the two calls and the race detector judges every write on the shared paths
+			return n - 1
+		}
+	}
+	res := vsync.Run(bodies, decide)
+	name := "H12-the-same-malformed-input-twice"
+	x.InputID = hashBytes(append([]byte(x.Devs().String()), d.B...))
+	x.Outcome = fmt.Sprintf("sw%d", res.Switches)
+	det := map[string]string{"driver": name, "seed": s.name, "malformation": fmt.Sprint(what), "input_hex": hexInput(d.B)}
+	if res.Deadlock {
+		x.Fail("deadlock|"+name, "deadlock: "+res.Blocked, det)
+		return
+	}
+	for w := 0; w < 2; w++ {
+		if res.Panics[w] != nil {
+			x.Fail("panic|"+name+"|concurrent", fmt.Sprintf("thread %d panicked: %v", w, res.Panics[w]), det)
+		} else if results[w] != golden {
+			x.Fail("concurrent-result-differs|"+name, fmt.Sprintf("seed %s with %v decoded twice at once: call %d returned %s ; alone it returns %s", s.name, what, w, truncStr(results[w], 300), truncStr(golden, 300)), det)
+		}
+	}
+}
+
 func c05FirstUse(x *mc.Exec) {
 	c05InitPairs()
 	v := x.All("entry-point", len(c05PairEntries))
@@ -738,7 +804,11 @@ func init() {
 				Rule: "for each of 18 entry points E: E(A) || E(B) as the first two calls a fresh process makes (one child process per execution, scheduled by the parent's explorer; every schedule with <= 1 preemption or pool-answer deviation), the sequential reference computed in the same child afterwards: lazily built state must be built safely"})
 			sp = append(sp, mc.Space{Name: "H11-after-a-call-that-leaves-a-pool-holding-one-object-twice", H: c05AfterDuplicates, NoLevels: true, Isolate: true, SplitDepth: 1,
 				Rule: "every input of C04's victim list (every seed, cuts, single-field malformations, JPEG marker structures, degenerate records, re-entrant calls x entry points) run alone; whenever a pool afterwards holds one object twice: Decode(TIFF) || Decode(JPEG) under every schedule with one preemption, each result compared with its sequential result"})
+			sp = append(sp, mc.Space{Name: "H12-the-same-malformed-input-twice", H: c05MalformedPairs, Bound: 1, Isolate: true, SplitDepth: 1,
+				Rule: "every single-field malformation of every generated seed below 6 KB, decoded by two threads at once (error paths build results too); each result compared with the sequential one"})
 			if raceBin != "" {
+				sp = append(sp, mc.Space{Name: "H12-the-same-malformed-input-twice/race-detector", H: c05MalformedPairs, Bound: 1, Isolate: true, SplitDepth: 1, Binary: raceBin, Env: raceEnv,
+					Rule: "the same in the -race build: a mutable value shared by an error path (a package-level error, a scratch area) is a write/write race whatever the schedule"})
 				sp = append(sp, mc.Space{Name: "H10-first-calls-of-a-process/race-detector", H: c05FirstUse, Bound: 0, Isolate: true, SplitDepth: 1, Binary: raceBin, Env: raceEnv,
 					Rule: "the same with the child built with -race: the detector judges the first calls of every fresh process (default schedule; its verdict on unsynchronised accesses does not depend on the schedule unless control flow does)"})
 				for di, d := range c05Get() {
